@@ -1,6 +1,7 @@
 (* DF/AggProofs.v — streaming reductions equal pandas on the concatenated prefix (C06), for all batch sequences. *)
 From Coq Require Import List ZArith QArith Qcanon Bool Lia.
-From SZ Require Import DF.Frames DF.Agg.
+From SZ Require Import DF.Frames.
+From SZ Require Import DF.Agg.
 Import ListNotations.
 Local Open Scope Qc_scope.
 
